@@ -141,7 +141,7 @@ func (c *Concretiser) prepScript(q M) string {
 // RenderToks renders a token sequence into query text with random filler.
 func (c *Concretiser) RenderToks(toks []any) string {
 	var sb strings.Builder
-	for _, tv := range toks {
+	for ti, tv := range toks {
 		t := AsM(tv)
 		switch S(t, "k") {
 		case "text":
@@ -157,6 +157,10 @@ func (c *Concretiser) RenderToks(toks []any) string {
 				// the same index may be written with leading zeros
 				sb.WriteString("$" + strings.Repeat("0", []int{0, 0, 0, 1, 3, 6}[c.Rng.Intn(6)]) + fmt.Sprint(n))
 			}
+		}
+		// markers may follow each other without anything in between ("$1$2", "$1?"): no separator then
+		if ti+1 < len(toks) && S(AsM(toks[ti+1]), "k") != "text" && S(t, "k") != "text" && c.Rng.Intn(3) == 0 {
+			continue
 		}
 		sb.WriteString(" ")
 	}
